@@ -30,15 +30,32 @@ const ABSENT: &str = "\u{1}absent";
 
 fn alphabets() -> Vec<(&'static str, Vec<Value>)> {
     let long: String = "long-é-".repeat(600);
+    let s255: String = "x".repeat(255);
+    let s256: String = "y".repeat(256);
+    let s64k: String = "z".repeat(65536);
     vec![
-        ("s", vec![json!(""), json!("a"), json!("é"), json!("null"), json!("true"), json!("123"), json!("1.5"), json!("[1,2]"), json!("{}"), json!(long), json!("q\"uo\nte\\"), json!("18446744073709551615")]),
-        ("i", vec![json!(0), json!(1), json!(-1), json!(i64::MIN), json!(i64::MAX)]),
-        ("u", vec![json!(0), json!(9223372036854775808u64), json!(u64::MAX), json!(1)]),
-        ("f", vec![json!(0.0), json!(-0.0), json!(1.0), json!(1.5), json!(1e308), json!(5e-324), json!(-2.5)]),
+        (
+            "s",
+            vec![
+                json!(""), json!("a"), json!("é"), json!("null"), json!("true"), json!("123"), json!("1.5"), json!("[1,2]"), json!("{}"), json!(long), json!("q\"uo\nte\\"), json!("18446744073709551615"),
+                // separators, control characters, length-prefix boundaries
+                json!("a|b,c;d"), json!("tab\tsep\u{0}nul"), json!(s255), json!(s256), json!(s64k), json!(" lead and trail "),
+            ],
+        ),
+        (
+            "i",
+            vec![
+                json!(0), json!(1), json!(-1), json!(i64::MIN), json!(i64::MAX),
+                // integers that do not survive a trip through f64 / f32 / i32
+                json!((1i64 << 53) + 1), json!(-((1i64 << 53) + 1)), json!(1234567890123456789i64), json!(i64::MAX - 1), json!(i64::MIN + 1), json!(1i64 << 53), json!((1i64 << 31) + 1), json!(16777217),
+            ],
+        ),
+        ("u", vec![json!(0), json!(9223372036854775808u64), json!(u64::MAX), json!(1), json!((1u64 << 53) + 1), json!((1u64 << 63) - 1), json!(u64::MAX - 1), json!(4294967297u64)]),
+        ("f", vec![json!(0.0), json!(-0.0), json!(1.0), json!(1.5), json!(1e308), json!(5e-324), json!(-2.5), json!(0.1), json!(1.0 / 3.0), json!(16777217.0), json!(1e-7), json!(123456789.125), json!(-1e-300)]),
         ("b", vec![json!(true), json!(false)]),
         ("e", vec![json!("x"), json!("y"), json!("z")]),
-        ("o", vec![json!(null), json!(ABSENT), json!(0), json!(-7)]),
-        ("os", vec![json!(null), json!(ABSENT), json!(""), json!("null")]),
+        ("o", vec![json!(null), json!(ABSENT), json!(0), json!(-7), json!((1i64 << 53) + 1), json!(i64::MIN)]),
+        ("os", vec![json!(null), json!(ABSENT), json!(""), json!("null"), json!("é")]),
         ("d", vec![json!(1700000000), json!("2023-11-14T22:13:20Z"), json!(1700000000000i64), json!("2023-11-14T23:13:20+01:00")]),
     ]
 }
@@ -57,7 +74,7 @@ fn payload_at(idx: usize, id: i64) -> Map<String, Value> {
 }
 
 pub fn datasets(tier: &str) -> Vec<(String, Vec<(usize, Row)>)> {
-    let n = 12;
+    let n = 18;
     let mut out = Vec::new();
     for i in 0..n {
         for j in (i + 1)..n {
@@ -245,7 +262,7 @@ pub fn check(tier: &str) -> i32 {
         layouts,
         queries: qs.iter().map(|q| q.text.clone()).collect(),
         judge: &judge,
-        rule: "rows built from per-type value alphabets (12 strings incl. empty / numeric-, keyword-, JSON-looking / 4 KB / quotes+newline; i64 and u64 boundaries; 7 floats incl. -0.0, 1e308, 5e-324; bools; enum variants; null and absent optionals; 4 spellings of one instant): every pair of alphabet positions shares a zone; x 6 storage tiers x 23 QUERY/REPLAY RETURN variants; every returned cell is compared with the stored value per declared type, core fields must be present and right, non-requested payload columns absent; distinct_nontrivial = (data set, query) pairs judged".into(),
+        rule: "rows built from per-type value alphabets (18 strings incl. empty / numeric-, keyword-, JSON-looking / 4 KB / quotes+newline / separators, TAB and NUL / lengths 255, 256, 65536; 13 signed integers incl. both extremes and values that do not survive f64, f32 or i32 (2^53+1, 1234567890123456789, MAX-1, 2^31+1, 2^24+1); 8 u64 incl. 2^63, 2^64-1, 2^53+1; 13 floats incl. -0.0, 1e308, 5e-324, 0.1, 1/3, 2^24+1, 1e-7; bools; enum variants; null and absent optionals; 4 spellings of one instant): every pair of alphabet positions shares a zone; x 6 storage tiers x 23 QUERY/REPLAY RETURN variants; every returned cell is compared with the stored value per declared type, core fields must be present and right, non-requested payload columns absent; distinct_nontrivial = (data set, query) pairs judged".into(),
         assumptions: vec!["numbers compare numerically (1 == 1.0, -0.0 == 0.0); an optional stored as null or left out may come back as null or be missing".into(), "rows are matched by their (unique, driver-controlled) STORE second".into()],
         describe: &|_| "a stored value / RETURN projection does not round-trip (exact cases in known/C07.*.json)".to_string(),
         extra: json!({}),
